@@ -308,6 +308,10 @@ func (env *Env) selectField(base Val, name string) Val {
 	for _, fi := range index {
 		if p, ok := cur.T.Underlying().(*types.Pointer); ok {
 			cur = env.fieldOfObject(cur, p.Elem(), fi)
+			// values read from the heap are well-formed Go values (slice headers, string lengths)
+			if wf := env.fc.wfFacts(cur); wf != "true" && env.fc.cur != nil && len(env.bound) == 0 {
+				env.fc.cur.assume(wf)
+			}
 			continue
 		}
 		st := cur.T.Underlying().(*types.Struct)
